@@ -50,7 +50,7 @@ void generate(Rng& r, Workload& w, int tier) {
     int mode = r.chance(1, 2) ? 1 : 0;
     if (mode == 0) {
         w.cfg = {0, r.chance(1, 4) ? 1 : 0};
-        int n = int(r.range(1, tier ? 40 : 30));
+        int n = int(r.range(1, tier ? 100 : 30));
         for (int i = 0; i < n; ++i)
             w.ops.push_back({int64_t(r.below(H_N)), int64_t(r.below(5)), int64_t(r.below(5))});
     } else {
